@@ -70,6 +70,7 @@ type FuncC struct {
 	NoSwallow     bool
 	NoSwallowTags []string
 	Nullable      map[string]bool // pointer parameters that may be nil
+	Hints         map[string]bool // proof hints (e.g. appendcopy)
 	Ghosts        []GhostDecl
 	Abstracts     []string
 	MayPanic      bool // explicit panic instructions allowed (documented API panics)
@@ -142,7 +143,7 @@ var specRe = regexp.MustCompile(`^spec\s+([A-Za-z_][A-Za-z0-9_]*)\s*\(([^)]*)\)\
 var lemmaRe = regexp.MustCompile(`^lemma(\[[A-Za-z0-9,]+\])?\s+([A-Za-z_][A-Za-z0-9_]*)\s*\(([^)]*)\)\s*(induct\s+([A-Za-z_][A-Za-z0-9_]*))?\s*$`)
 
 var topKeywords = []string{"typeinv ", "assume-typeinv ", "spec ", "axiom ", "lemma ", "lemma[", "func ", "extern ", "funcfield ", "functype ", "nopanic "}
-var subKeywords = []string{"requires", "ensures", "defines", "invariant", "decreases", "assert", "assume", "panics", "modifies", "pure", "loop ", "callsite ", "noswallow", "ghost ", "abstracts ", "maypanic", "before:", "after:", "uses ", "ignore ", "pattern ", "preserves ", "nullable ", "havoc "}
+var subKeywords = []string{"requires", "ensures", "defines", "invariant", "decreases", "assert", "assume", "panics", "modifies", "pure", "loop ", "callsite ", "noswallow", "ghost ", "abstracts ", "maypanic", "before:", "after:", "uses ", "ignore ", "pattern ", "preserves ", "nullable ", "havoc ", "hint "}
 
 func startsWithAny(s string, ks []string) bool {
 	for _, k := range ks {
@@ -322,6 +323,14 @@ func ParseContractFile(path string) (*CFile, error) {
 				return nil, errf(l, "pure outside func")
 			}
 			curF.Pure = true
+		case strings.HasPrefix(t, "hint "):
+			if curF == nil {
+				return nil, errf(l, "hint outside func")
+			}
+			if curF.Hints == nil {
+				curF.Hints = map[string]bool{}
+			}
+			curF.Hints[strings.TrimSpace(strings.TrimPrefix(t, "hint "))] = true
 		case strings.HasPrefix(t, "nullable "):
 			if curF == nil {
 				return nil, errf(l, "nullable outside func")
